@@ -147,7 +147,8 @@ Proof.
   rewrite H by (left; reflexivity). apply IH. intros; apply H; right; assumption.
 Qed.
 
-(* ================================================================ construct level: _partial *)
+(* ================================================================ construct level, UNSORTED walk ([promote_with sigma], the code before the
+   repair of F-C10-promotion-order): independent of the order inside [guard] *)
 Lemma tmem_app x l1 l2 : tmem x (l1 ++ l2) = tmem x l1 || tmem x l2.
 Proof. induction l1 as [|y r IH]; cbn; [reflexivity|]. rewrite IH, orb_assoc. reflexivity. Qed.
 
@@ -276,7 +277,7 @@ Proof.
 Qed.
 
 Lemma promote_guarded s1 s2 c :
-  perm_oracle s1 -> perm_oracle s2 -> guard c = true -> promote s1 c = promote s2 c.
+  perm_oracle s1 -> perm_oracle s2 -> guard c = true -> promote_with s1 c = promote_with s2 c.
 Proof.
   intros H1 H2 HG. destruct c as [parent brs|d pr]; cbn in *.
   - unfold promote_if. apply promote_if_guarded; assumption.
@@ -298,7 +299,7 @@ Proof.
   eapply Nat.le_trans; [apply filter_len_le|]. rewrite map_length. exact HL.
 Qed.
 
-(* ================================================================ construct level: refuted, and the guard is tight *)
+(* ================================================================ construct level, unsorted walk: order dependent outside [guard] *)
 Definition sid (l : list ident) : list ident := l.
 Definition srev (l : list ident) : list ident := rev l.
 
@@ -311,7 +312,7 @@ Proof. intros l. symmetry. apply Permutation_rev. Qed.
 (* two distinct new names in one branch: the two oracles give two different orders, whatever the names and types *)
 Lemma promote_if_two_names parent x y tx ty :
   x <> y -> tmem x parent = false -> tmem y parent = false ->
-  promote sid (CIf parent [[(x, tx); (y, ty)]]) <> promote srev (CIf parent [[(x, tx); (y, ty)]]).
+  promote_with sid (CIf parent [[(x, tx); (y, ty)]]) <> promote_with srev (CIf parent [[(x, tx); (y, ty)]]).
 Proof.
   intros Hxy Hx Hy.
   assert (text_eqb y x = false) as Eyx.
@@ -328,7 +329,7 @@ Qed.
 (* a loop body that declares two new names which _collect_order does not meet (they sit in a try statement) *)
 Lemma promote_loop_two_names x y tx ty :
   x <> y ->
-  promote sid (CLoop [] [(x, tx); (y, ty)]) <> promote srev (CLoop [] [(x, tx); (y, ty)]).
+  promote_with sid (CLoop [] [(x, tx); (y, ty)]) <> promote_with srev (CLoop [] [(x, tx); (y, ty)]).
 Proof.
   intros Hxy.
   assert (text_eqb y x = false) as Eyx.
@@ -491,22 +492,13 @@ Section Agree.
   Proof. unfold walk_prog. intros H. rewrite (fold_walk_agree p _ H). reflexivity. Qed.
 End Agree.
 
-(* the _partial theorem for whole programs of the modelled fragment: if every construct met is inside the guard,
+(* whole programs of the modelled fragment under the unsorted walk: if every construct met is inside the guard,
    the translation does not depend on the iteration orders *)
 Lemma transl_guarded s1 s2 p :
-  perm_family s1 -> perm_family s2 -> o_ok (transl s1 p) = true -> transl s1 p = transl s2 p.
+  perm_family s1 -> perm_family s2 -> o_ok (transl_with s1 p) = true -> transl_with s1 p = transl_with s2 p.
 Proof.
-  intros H1 H2. unfold transl. apply walk_prog_agree.
+  intros H1 H2. unfold transl_with. apply walk_prog_agree.
   intros o c HG. apply promote_guarded; [apply H1|apply H2|exact HG].
-Qed.
-
-(* a session of guarded programs: every output is oracle independent and independent of the rest of the session *)
-Lemma session_guarded s1 s2 ps :
-  perm_family s1 -> perm_family s2 ->
-  forallb (fun p => o_ok (transl s1 p)) ps = true -> session s1 ps = session s2 ps.
-Proof.
-  intros H1 H2 H. unfold session. apply map_ext_in. intros p Hp.
-  rewrite forallb_forall in H. apply transl_guarded; auto.
 Qed.
 
 (* ================================================================ only the ORDER can vary *)
@@ -602,7 +594,7 @@ Proof.
 Qed.
 
 Lemma promote_permutation s1 s2 c :
-  perm_oracle s1 -> perm_oracle s2 -> Permutation (promote s1 c) (promote s2 c).
+  perm_oracle s1 -> perm_oracle s2 -> Permutation (promote_with s1 c) (promote_with s2 c).
 Proof.
   intros H1 H2. destruct c as [parent brs|d pr]; cbn.
   - unfold promote_if. apply promote_if_perm_aux; auto.
@@ -628,7 +620,7 @@ Qed.
 Lemma sigma_rank_perm : perm_family sigma_rank.
 Proof. intros o l. apply sort_by_perm. Qed.
 
-(* ================================================================ program level: refuted *)
+(* ================================================================ program level, unsorted walk: order dependent *)
 From Coq Require Import String.
 
 Definition n_cnd := txt "cnd"%string.
@@ -643,16 +635,16 @@ Definition witness_prog : list item :=
   [ IStmt (SAssign n_cnd 0);
     IStmt (SIf [] [[SAssign n_a 0; SAssign n_b 0; SAssign n_c 0; SAssign n_d 0; SAssign n_e 0]]) ].
 
-Lemma witness_differs : transl (fun _ => sid) witness_prog <> transl (fun _ => srev) witness_prog.
+Lemma witness_differs : transl_with (fun _ => sid) witness_prog <> transl_with (fun _ => srev) witness_prog.
 Proof. intros H. vm_compute in H. discriminate H. Qed.
 
 Lemma witness_globals :
-  map fst (o_globals (transl (fun _ => sid) witness_prog)) = [n_cnd; n_a; n_b; n_d; n_e; n_c] /\
-  map fst (o_globals (transl (fun _ => srev) witness_prog)) = [n_cnd; n_c; n_e; n_d; n_b; n_a].
+  map fst (o_globals (transl_with (fun _ => sid) witness_prog)) = [n_cnd; n_a; n_b; n_d; n_e; n_c] /\
+  map fst (o_globals (transl_with (fun _ => srev) witness_prog)) = [n_cnd; n_c; n_e; n_d; n_b; n_a].
 Proof. split; vm_compute; reflexivity. Qed.
 
 Lemma order_dependence_exists :
-  exists s1 s2 p, perm_family s1 /\ perm_family s2 /\ transl s1 p <> transl s2 p.
+  exists s1 s2 p, perm_family s1 /\ perm_family s2 /\ transl_with s1 p <> transl_with s2 p.
 Proof.
   exists (fun _ => sid), (fun _ => srev), witness_prog. split; [|split].
   - intros _. apply sid_perm.
@@ -666,7 +658,7 @@ Definition witness_prog_local : list item :=
     IDef (txt "fn"%string) [SIf [] [[SAssign n_a 0; SAssign n_b 1]]] ].
 
 Lemma witness_local_differs :
-  transl (fun _ => sid) witness_prog_local <> transl (fun _ => srev) witness_prog_local.
+  transl_with (fun _ => sid) witness_prog_local <> transl_with (fun _ => srev) witness_prog_local.
 Proof. intros H. vm_compute in H. discriminate H. Qed.
 
 (* ================================================================ non-vacuity of the guarded theorem *)
@@ -678,26 +670,26 @@ Definition guarded_prog : list item :=
     IMain [SWhile [] [SAssign n_c 0; SAssign n_d 3]] ].
 
 Lemma guarded_prog_ok :
-  o_ok (transl (fun _ => sid) guarded_prog) = true /\
-  o_globals (transl (fun _ => sid) guarded_prog) = [(n_cnd, 0); (n_a, 0); (n_b, 1)] /\
-  o_loop (transl (fun _ => sid) guarded_prog) =
+  o_ok (transl_with (fun _ => sid) guarded_prog) = true /\
+  o_globals (transl_with (fun _ => sid) guarded_prog) = [(n_cnd, 0); (n_a, 0); (n_b, 1)] /\
+  o_loop (transl_with (fun _ => sid) guarded_prog) =
     [NDecl n_c 0; NDecl n_d 3; NWhile [NAssign n_c; NAssign n_d]].
 Proof. repeat split; vm_compute; reflexivity. Qed.
 
-Lemma witness_outside_guard : o_ok (transl (fun _ => sid) witness_prog) = false.
+Lemma witness_outside_guard : o_ok (transl_with (fun _ => sid) witness_prog) = false.
 Proof. vm_compute. reflexivity. Qed.
 
 (* ================================================================ the guard does not depend on the oracle *)
 Lemma guard_oracle_independent s1 s2 p :
-  perm_family s1 -> perm_family s2 -> o_ok (transl s1 p) = o_ok (transl s2 p).
+  perm_family s1 -> perm_family s2 -> o_ok (transl_with s1 p) = o_ok (transl_with s2 p).
 Proof.
   intros H1 H2.
-  destruct (o_ok (transl s1 p)) eqn:E1; destruct (o_ok (transl s2 p)) eqn:E2; try reflexivity.
+  destruct (o_ok (transl_with s1 p)) eqn:E1; destruct (o_ok (transl_with s2 p)) eqn:E2; try reflexivity.
   - rewrite (transl_guarded s1 s2 p H1 H2 E1) in E1. congruence.
   - rewrite (transl_guarded s2 s1 p H2 H1 E2) in E2. congruence.
 Qed.
 
-(* ================================================================ the candidate repair is order independent, no guard *)
+(* ================================================================ the code as it is (sorted walk): order independent, no guard *)
 Section Ext.
   Variables P1 P2 : otag -> construct -> list decl.
   Hypothesis HP : forall o c, P1 o c = P2 o c.
@@ -756,36 +748,93 @@ Proof. intros H1 H2. unfold sorted_oracle. apply sort_of_perm. rewrite (H1 l), (
 Lemma sorted_oracle_perm s : perm_oracle s -> perm_oracle (sorted_oracle s).
 Proof. intros H l. unfold sorted_oracle. rewrite sort_perm. apply H. Qed.
 
-Lemma promote_fixed_independent s1 s2 c :
-  perm_oracle s1 -> perm_oracle s2 -> promote_fixed s1 c = promote_fixed s2 c.
+Lemma promote_independent s1 s2 c :
+  perm_oracle s1 -> perm_oracle s2 -> promote s1 c = promote s2 c.
 Proof.
-  intros H1 H2. unfold promote_fixed.
+  intros H1 H2. unfold promote.
   destruct c as [parent brs|d pr]; cbn.
   - unfold promote_if. apply fold_left_ext_in. intros acc br _. unfold promote_branch.
     rewrite (sorted_oracle_canonical s1 s2 _ H1 H2). reflexivity.
   - unfold promote_loop, loop_order. rewrite (sorted_oracle_canonical s1 s2 _ H1 H2). reflexivity.
 Qed.
 
-Lemma transl_fixed_independent s1 s2 p :
-  perm_family s1 -> perm_family s2 -> transl_fixed s1 p = transl_fixed s2 p.
+Lemma transl_independent s1 s2 p :
+  perm_family s1 -> perm_family s2 -> transl s1 p = transl s2 p.
 Proof.
-  intros H1 H2. unfold transl_fixed. apply walk_prog_ext.
-  intros o c. apply promote_fixed_independent; [apply H1|apply H2].
+  intros H1 H2. unfold transl. apply walk_prog_ext.
+  intros o c. apply promote_independent; [apply H1|apply H2].
 Qed.
 
-(* the repair changes nothing inside the guard: there it emits what the code emits today *)
-Lemma transl_fixed_conservative s p :
-  perm_family s -> o_ok (transl s p) = true -> transl_fixed s p = transl s p.
+(* the repair changed nothing inside the guard: there the sorted walk emits what the unsorted walk emitted *)
+Lemma transl_conservative s p :
+  perm_family s -> o_ok (transl_with s p) = true -> transl s p = transl_with s p.
 Proof.
-  intros H Hok. unfold transl_fixed.
-  change (walk_prog (fun o c => promote_fixed (s o) c) p) with (transl (fun o => sorted_oracle (s o)) p).
+  intros H Hok. unfold transl.
+  change (walk_prog (fun o c => promote (s o) c) p) with (transl_with (fun o => sorted_oracle (s o)) p).
   symmetry. apply transl_guarded; [exact H| |exact Hok].
   intros o. apply sorted_oracle_perm, H.
 Qed.
 
 Lemma witness_fixed :
-  transl_fixed (fun _ => sid) witness_prog = transl_fixed (fun _ => srev) witness_prog.
-Proof. vm_compute. reflexivity. Qed.
+  transl (fun _ => sid) witness_prog = transl (fun _ => srev) witness_prog /\
+  map fst (o_globals (transl (fun _ => srev) witness_prog)) = [n_cnd; n_a; n_b; n_d; n_e; n_c] /\
+  o_ok (transl (fun _ => srev) witness_prog) = false.
+Proof. split; [|split]; vm_compute; reflexivity. Qed.
+
+Lemma two_oracles :
+  perm_family (fun _ => sid) /\ perm_family (fun _ => srev) /\ sid [n_a; n_b] <> srev [n_a; n_b].
+Proof.
+  split; [intros _; apply sid_perm|]. split; [intros _; apply srev_perm|].
+  intros H. vm_compute in H. discriminate H.
+Qed.
+
+(* sessions *)
+Lemma session_order_independent s1 s2 ps :
+  perm_family s1 -> perm_family s2 -> session s1 ps = session s2 ps.
+Proof. intros H1 H2. unfold session. apply map_ext. intros p. apply transl_independent; assumption. Qed.
+
+(* the hoisted order is canonical: what a walk in code-point order yields, branch by branch *)
+Lemma sorted_oracle_is_sort s l : perm_oracle s -> sorted_oracle s l = sort l.
+Proof. intros H. unfold sorted_oracle. apply sort_of_perm. apply H. Qed.
+
+Lemma promote_canonical s c : perm_oracle s -> promote s c = promote_with sort c.
+Proof.
+  intros H. unfold promote. destruct c as [parent brs|d pr]; cbn.
+  - unfold promote_if. apply fold_left_ext_in. intros acc br _. unfold promote_branch.
+    rewrite (sorted_oracle_is_sort s _ H). reflexivity.
+  - unfold promote_loop, loop_order. rewrite (sorted_oracle_is_sort s _ H). reflexivity.
+Qed.
+
+Lemma transl_canonical s p : perm_family s -> transl s p = transl_with (fun _ => sort) p.
+Proof.
+  intros H. unfold transl, transl_with. apply walk_prog_ext. intros o c. apply promote_canonical, H.
+Qed.
+
+(* the two construct shapes that separated two oracles before the repair no longer do *)
+Lemma promote_two_names_in_a_branch parent x y tx ty :
+  promote sid (CIf parent [[(x, tx); (y, ty)]]) = promote srev (CIf parent [[(x, tx); (y, ty)]]).
+Proof. apply promote_independent; [apply sid_perm|apply srev_perm]. Qed.
+
+Lemma promote_two_unmet_names_in_a_loop x y tx ty :
+  promote sid (CLoop [] [(x, tx); (y, ty)]) = promote srev (CLoop [] [(x, tx); (y, ty)]).
+Proof. apply promote_independent; [apply sid_perm|apply srev_perm]. Qed.
+
+(* a program outside the old guard whose hoisted declarations are typed and placed: two names in one branch of a
+   function, three in a while body of the main loop (met by _collect_order: source order), two in an except clause *)
+Definition open_prog : list item :=
+  [ IStmt (SAssign n_cnd 0);
+    IDef (txt "fn"%string) [SIf [] [[SAssign n_e 1; SAssign n_a 0]; [SAssign n_d 3; SAssign n_a 0; SAssign n_b 2]]];
+    IMain [STry [] [[SAssign n_cnd 0]; [SAssign n_c 1; SAssign n_b 3]]] ].
+
+Lemma open_prog_ok :
+  o_ok (transl (fun _ => srev) open_prog) = false /\
+  transl (fun _ => sid) open_prog = transl (fun _ => srev) open_prog /\
+  o_funs (transl (fun _ => srev) open_prog) =
+    [(txt "fn"%string, [NDecl n_a 0; NDecl n_e 1; NDecl n_b 2; NDecl n_d 3;
+                        NIf [[NAssign n_e; NAssign n_a]; [NAssign n_d; NAssign n_a; NAssign n_b]]])] /\
+  o_loop (transl (fun _ => srev) open_prog) =
+    [NDecl n_b 3; NDecl n_c 1; NTry [[NAssign n_cnd]; [NAssign n_c; NAssign n_b]]].
+Proof. split; [|split; [|split]]; vm_compute; reflexivity. Qed.
 
 (* a branch may declare two new names when an earlier branch has already recorded one of them *)
 Definition guarded_prog2 : list item :=
@@ -793,8 +842,8 @@ Definition guarded_prog2 : list item :=
     IDef (txt "fn"%string) [SIf [] [[SAssign n_a 0]; [SAssign n_b 1; SAssign n_a 0]]] ].
 
 Lemma guarded_prog2_ok :
-  o_ok (transl (fun _ => sid) guarded_prog2) = true /\
-  o_funs (transl (fun _ => srev) guarded_prog2) =
+  o_ok (transl_with (fun _ => sid) guarded_prog2) = true /\
+  o_funs (transl_with (fun _ => srev) guarded_prog2) =
     [(txt "fn"%string, [NDecl n_a 0; NDecl n_b 1; NIf [[NAssign n_a]; [NAssign n_b; NAssign n_a]]])].
 Proof. split; vm_compute; reflexivity. Qed.
 
@@ -948,6 +997,6 @@ Qed.
 Lemma loop_site_independent s1 s2 P body c :
   perm_oracle s1 -> perm_oracle s2 ->
   let r := walk_block P body c in
-  promote s1 (CLoop (flat_map decl_names (w_nodes r)) (new_decls c (w_ctx r))) =
-  promote s2 (CLoop (flat_map decl_names (w_nodes r)) (new_decls c (w_ctx r))).
+  promote_with s1 (CLoop (flat_map decl_names (w_nodes r)) (new_decls c (w_ctx r))) =
+  promote_with s2 (CLoop (flat_map decl_names (w_nodes r)) (new_decls c (w_ctx r))).
 Proof. intros H1 H2 r. apply promote_guarded; auto. apply loop_guard_holds. Qed.
